@@ -208,6 +208,15 @@ func (u *Unit) eval(st *State, e ast.Expr) Value {
 			return u.numNeg(x, x.T)
 		case token.ADD:
 			return u.eval(st, e.X)
+		case token.XOR:
+			x := u.eval(st, e.X)
+			if x.K == KNum && x.Term != nil && isBV(x.Term) {
+				return Value{K: KNum, T: x.T, Term: mk("bvnot", x.Term.Sort, x.Term)}
+			}
+			if x.K == KInt {
+				// ^x == -x-1 on two's-complement integers
+				return Value{K: KInt, T: x.T, Term: Sub(Neg(x.Term), IntLit(1))}
+			}
 		}
 		u.errorf("%s: unsupported unary operator %s", u.pos(e), e.Op)
 		return Value{K: KUnit}
